@@ -86,6 +86,17 @@ TrOpt ==
 EngOf(k, d) == IF phase = "loaded" /\ k + 1 \in DOMAIN objs /\ d \in DOMAIN cur.docs
                   /\ "src" \in DOMAIN cur /\ TextOk(SrcOf(k))
                THEN EngEvalOpt(Ast(SrcOf(k)), objs[k + 1].sw, cur.docs[d]) ELSE "-"
+(* the model's explanation of the verdict the denotation is bound to: "T"/"F" if SOME object of   *)
+(* the same class (any switch set in scope, any alternative source) is predicted to give that    *)
+(* verdict, "-" otherwise                                                                      *)
+Eng0Of(k, d) ==
+  IF phase = "loaded" /\ d \in DOMAIN cur.docs /\ "src" \in DOMAIN cur /\ k + 1 \in DOMAIN objs
+     /\ DK(k, d) \in DOMAIN den
+  THEN LET want == den[DK(k, d)]
+           ok == \E j \in 0..(Len(objs) - 1) :
+                    DK(j, d) = DK(k, d) /\ TextOk(SrcOf(j)) /\ (EngOf(j, d) = "T") = want /\ EngOf(j, d) \notin {"U", "-", "P"}
+       IN IF ok THEN (IF want THEN "T" ELSE "F") ELSE "-"
+  ELSE "-"
 WantEng == "plan" \in DOMAIN cur /\ "eng" \in DOMAIN cur.plan /\ cur.plan.eng
 EngDrift(k, d, out) ==
   IF WantEng /\ phase = "loaded" /\ k + 1 \in DOMAIN objs /\ d \in DOMAIN cur.docs /\ TextOk(SrcOf(k))
@@ -110,8 +121,7 @@ TrMatch ==
                  [obj |-> e.obj, d |-> e.d, out |-> e.out,
                   lang |-> IF d \in DOMAIN cur.docs /\ HasOracle(cur) THEN SetSeq(TriAllowed(d)) ELSE <<>>,
                   eng |-> EngOf(e.obj, d),
-                  eng0 |-> IF phase = "loaded" /\ d \in DOMAIN cur.docs /\ "src" \in DOMAIN cur /\ e.obj + 1 \in DOMAIN objs /\ TextOk(SrcOf(e.obj))
-                           THEN EngEvalOpt(Ast(SrcOf(e.obj)), <<>>, cur.docs[d]) ELSE "-",
+                  eng0 |-> Eng0Of(e.obj, d),
                   den0 |-> IF DK(e.obj, d) \in DOMAIN den THEN (IF den[DK(e.obj, d)] THEN "t" ELSE "f") ELSE "-",
                   sw |-> IF e.obj + 1 \in DOMAIN objs THEN objs[e.obj + 1].sw ELSE <<>>])
           \* re-sync: an observation the oracle rejects still binds the denotation, so that later
@@ -131,8 +141,7 @@ TrTri ==
                  [obj |-> e.obj, d |-> e.d, out |-> e.out,
                   lang |-> IF d \in DOMAIN cur.docs /\ HasOracle(cur) THEN SetSeq(TriAllowed(d)) ELSE <<>>,
                   eng |-> EngOf(e.obj, d),
-                  eng0 |-> IF phase = "loaded" /\ d \in DOMAIN cur.docs /\ "src" \in DOMAIN cur /\ e.obj + 1 \in DOMAIN objs /\ TextOk(SrcOf(e.obj))
-                           THEN EngEvalOpt(Ast(SrcOf(e.obj)), <<>>, cur.docs[d]) ELSE "-",
+                  eng0 |-> Eng0Of(e.obj, d),
                   den0 |-> IF DK(e.obj, d) \in DOMAIN den THEN (IF den[DK(e.obj, d)] THEN "t" ELSE "f") ELSE "-",
                   sw |-> IF e.obj + 1 \in DOMAIN objs THEN objs[e.obj + 1].sw ELSE <<>>])
           /\ UNCHANGED rvars
